@@ -1,6 +1,6 @@
 (** Extraction of the executable model and the oracles to OCaml (ExtrOcamlBasic only). *)
 From Coq Require Import Extraction ExtrOcamlBasic NArith List.
-From ADF Require Import Base.Maps Spec.Spec Bdd.Store Adf.Iter Adf.Native Front.Parser.
+From ADF Require Import Base.Maps Spec.Spec Bdd.Store Adf.Iter Adf.Native Adf.NoGood Front.Parser.
 Extraction Language OCaml.
 Extraction "extracted/model.ml"
   Store.init Store.mk_node Store.restrict Store.ite Store.variable Store.constant
@@ -12,5 +12,7 @@ Extraction "extracted/model.ml"
   Iter.it2_collect Iter.it3_collect
   Native.term Native.from_parser Native.grounded Native.complete Native.stable
   Native.stable_with_prefilter Native.stable_from_candidates Native.stability_check
+  NoGood.ngs_new NoGood.add_ng NoGood.conclusions NoGood.conclusion_closure NoGood.conclude NoGood.is_violating
+  NoGood.ng_of_terms NoGood.update_term_vec
   Parser.parse Parser.varsort_lexi Parser.resolve_acs Parser.formula_p
   N.add N.mul N.div_eucl N.of_nat N.to_nat N.eqb N.ltb N.leb.
